@@ -385,12 +385,10 @@ nextIntermediate:
 		if err != nil {
 			continue
 		}
+		// The chains below an intermediate depend on the chain built so far (loop
+		// avoidance, path length), so they cannot be cached per intermediate.
 		var childChains [][]*Certificate
-		childChains, ok := cache[intermediateNum]
-		if !ok {
-			childChains, err = intermediate.buildChains(cache, appendToFreshChain(currentChain, intermediate), opts)
-			cache[intermediateNum] = childChains
-		}
+		childChains, err = intermediate.buildChains(cache, appendToFreshChain(currentChain, intermediate), opts)
 		chains = append(chains, childChains...)
 	}
 
